@@ -78,6 +78,16 @@ def run(tier, out):
     fdeep = None if quick else pool.submit(V.tlc_design, "MC_Table.tla", "MC_Table_deep.cfg", PID, workers=8, timeout=2400, xmx="8g")
     # (C) table: design run, replay of every transition, random sequences, trace validation
     cov = T.run_table_part(PID, out, tier, "C11")
+    # (E) node level: router-mode meshes of real nodes with nested / overlapping claims, replayed through Forward.tla
+    #     (claimed destination -> the peer with the longest matching prefix, unknown -> dropped; switch/hub -> all peers)
+    from checks import fwdcommon as F
+    node_runs = []
+    for mode, nodes, runs in ([("router", 3, 3), ("router", 4, 2)] if quick else [("router", 3, 25), ("router", 4, 15), ("hub", 3, 5)]):
+        sn, okn, _ = F.random_run(PID, out, mode, nodes, runs)
+        node_runs.append((mode, nodes, runs, sn["steps"]))
+        cov["traces_validated_against_impl"] = cov.get("traces_validated_against_impl", 0) + okn
+        cov["evaluations"] = cov.get("evaluations", 0) + sn["steps"]
+    cov["node_level_runs"] = node_runs
     ps, ptrace, pvalidated = fpre.result()
     p8, p16 = fp8.result(), fp16.result()
     if fdeep is not None:
